@@ -28,6 +28,9 @@ type HMACAuth struct {
 	Now func() time.Time
 
 	nonce *nonceCache
+	// notBefore is the oldest signed timestamp still honoured; see
+	// InheritReplayState.
+	notBefore time.Time
 }
 
 func NewHMACAuth(secrets [][]byte) *HMACAuth {
@@ -44,12 +47,27 @@ func NewHMACAuth(secrets [][]byte) *HMACAuth {
 }
 
 // InheritReplayState makes a share prev's nonce cache, so that nonces honoured
-// before a configuration reload are still rejected afterwards.
+// before a configuration reload are still rejected afterwards. A reload that
+// widens the tolerance makes timestamps acceptable again that the old window
+// had stopped accepting: nonces still remembered are kept for the wider
+// window, and older timestamps, whose nonces may already be forgotten, stay
+// rejected.
 func (a *HMACAuth) InheritReplayState(prev *HMACAuth) {
 	if a == nil || prev == nil || prev.nonce == nil {
 		return
 	}
 	a.nonce = prev.nonce
+	a.notBefore = prev.notBefore
+	if prev.Tolerance > 0 && a.Tolerance > prev.Tolerance {
+		now := time.Now
+		if prev.Now != nil {
+			now = prev.Now
+		}
+		a.nonce.extend(a.Tolerance - prev.Tolerance)
+		if floor := now().UTC().Add(-prev.Tolerance); floor.After(a.notBefore) {
+			a.notBefore = floor
+		}
+	}
 }
 
 // Verify checks:
@@ -93,6 +111,10 @@ func (a *HMACAuth) Verify(r *http.Request, requestPath string, body []byte) erro
 		if d < -a.Tolerance || d > a.Tolerance {
 			return ErrUnauthorized
 		}
+	}
+
+	if !a.notBefore.IsZero() && t.Before(a.notBefore) {
+		return ErrUnauthorized
 	}
 
 	if a.nonce == nil {
@@ -153,6 +175,9 @@ type nonceCache struct {
 	mu  sync.Mutex
 	now func() time.Time
 	m   map[string]time.Time
+	// extra is how much longer than recorded an entry is kept; it grows when
+	// a reload widens the tolerance of the route the cache belongs to.
+	extra time.Duration
 }
 
 func newNonceCache(now func() time.Time) *nonceCache {
@@ -171,6 +196,15 @@ func (c *nonceCache) setNow(now func() time.Time) {
 	}
 	c.mu.Lock()
 	c.now = now
+	c.mu.Unlock()
+}
+
+func (c *nonceCache) extend(d time.Duration) {
+	if d <= 0 {
+		return
+	}
+	c.mu.Lock()
+	c.extra += d
 	c.mu.Unlock()
 }
 
@@ -196,12 +230,12 @@ func (c *nonceCache) seenOnceAt(now time.Time, nonce string, expiresAt time.Time
 
 	// Opportunistic cleanup.
 	for k, exp := range c.m {
-		if now.After(exp) {
+		if now.After(exp.Add(c.extra)) {
 			delete(c.m, k)
 		}
 	}
 
-	if exp, ok := c.m[nonce]; ok && !now.After(exp) {
+	if exp, ok := c.m[nonce]; ok && !now.After(exp.Add(c.extra)) {
 		return false
 	}
 	c.m[nonce] = expiresAt.UTC()
